@@ -18,7 +18,7 @@ pub fn prop() -> Prop {
 fn spec() -> Spec {
     Spec {
         kinds: vec![Kind { name: "offsets", quick: 8_000, thorough: 400_000, serial: false }],
-        rule: "each case = synthetic cell (coarse box meshes; with/without base and tool; 0..3 obstacles placed next to links of the initial or of an offset posture; touch-only or distance safety tables incl. exemptions; modes first/all) x collision-free initial vector x from/to vectors (each joint moved by 0.05..3 rad either way, some beyond the limits) x rayon pool size in {1,2,4,16}; the result of non_colliding_offsets must equal, in order, the up-to-twelve single-joint replacements that satisfy the limits and for which the same robot's full collides() is false. non-trivial = some candidates kept and some rejected for collision; distinct = hash(cell, initial, from, to)",
+        rule: "each case = synthetic cell (coarse box meshes; with/without base and tool; 0..3 obstacles placed next to links of the initial or of an offset posture; touch-only or distance safety tables incl. exemptions; modes first/all) x collision-free initial vector x from/to vectors (each joint moved by 0.05..3 rad either way, some beyond the limits) x rayon pool size in {1,2,4,16}; the result of non_colliding_offsets must equal, in order, the up-to-twelve single-joint replacements that satisfy the limits and for which the same robot's full collides() is false. non-trivial = some candidates kept and some rejected for collision; distinct = hash(cell, initial, from, to) Workload additions: a third of the cells with a forbidden arc opposite to the current value written as a wrap-around range and replacement values on another turn; designed base meshes next to links of J1..J3 offset postures (half of them without environment); off-origin obstacle meshes.",
         assumptions: vec![
             "precondition of the API: the initial vector is collision free (checked with the same robot's collides(); other cases are skipped as inconclusive)",
             "'reported free' is the same robot's full collides() (its agreement with geometry is C10's subject)",
@@ -73,6 +73,20 @@ fn run_case(_kind: &str, idx: u64, rng: &mut Rng, mon: &mut Mon, _tier: Tier) {
             from[j] = initial[j] - 2.0 * std::f64::consts::PI + rng.range(-0.9, 0.9) * w;
             mon.count(if lf[j] > lt[j] { "cells_with_a_wrap_around_range" } else { "cells_with_a_forbidden_arc" });
         }
+    }
+    // a fifth of the cells declares one or two joints with from == to, i.e. unconstrained (a continuous J6, a joint
+    // without <limit>): their replacements are legal whatever the values
+    if !illegal_initial && rng.bool(0.2) {
+        let c = cell.constraints;
+        let (mut lf, mut lt) = (c.from, c.to);
+        for _ in 0..(1 + rng.usize(2)) {
+            let j = rng.usize(6);
+            let v = *rng.pick(&[0.0, rng.clone().range(-3.0, 3.0)]);
+            lf[j] = v;
+            lt[j] = v;
+        }
+        cell.constraints = Constraints::new(lf, lt, 0.0);
+        mon.count("cells_with_unconstrained_joints");
     }
     // obstacles next to links of an offset posture (so that offsets collide) or far away
     let n_obs = rng.usize(4);
